@@ -173,7 +173,13 @@ def r14_2(ctx):
         if end[0] == 'bin' and end[1] == 'Add':
             size = simplify(end[3])
         ctx.need(size is not None, f"slice end = start + size in {fn}")
-        al = [untuple(a) for a in alts(size)]
+        def min_terms(n):
+            n = untuple(strip(n))
+            if n[0] == 'call' and len(n[2]) == 2 and n[1].rsplit('::', 1)[-1] == 'min' and ('cmp' in n[1] or 'Ord' in n[1] or 'impl usize' in n[1]):
+                return min_terms(n[2][0]) + min_terms(n[2][1])
+            return [n]
+        by_min = min_terms(size) if len(min_terms(size)) > 1 else []
+        al = [untuple(a) for a in alts(size)] + by_min
         has_req = any(a == ('arg', 3) for a in al)
         has_left = any(a[0] == 'bin' and a[1] == 'Sub' and ('A:2' in leafs(a)) and
                        (any(l.endswith('::window') for l in leafs(a) if l.startswith('C:')) or f"F:{RB}.length" in leafs(a)) for a in al)
@@ -193,7 +199,9 @@ def r14_2(ctx):
         for sel, what in ((is_left, 'remaining after offset'), (is_end, 'distance to end of storage')):
             cmp_ = lambda f, sel=sel: f[0] == 'rel' and f[1] in ('Gt', 'Le', 'Lt', 'Ge') and \
                 ((sel(f[3]) and 'A:3' in leafs(f[2])) or (sel(f[2]) and 'A:3' in leafs(f[3])))
-            if unguarded(F, b, [x[0]], cmp_):
+            if any(sel(t_) for t_ in by_min):
+                ctx.ok((fn, what, 'on-every-path'), sample=dict(fn=fn, clamp=what, applied='the size is min(.., ' + what + ')'))
+            elif unguarded(F, b, [x[0]], cmp_):
                 ctx.bad(f"{fn}|clamp-skipped|{what}", f"RingBuffer::{fn}: a path reaches the returned slice without the size having been compared with the {what} "
                         "(the two clamps are not applied one after the other): the slice can overlap the other region of the ring", body=b, bb=x[0])
             else:
@@ -212,7 +220,7 @@ def r14_4(ctx):
     F = ctx.F
     e1, e2 = ctx.method(PB, 'enqueue'), ctx.method(PB, 'enqueue_with_infallible')
 
-    def profile(b):
+    def profile(b, depth=0):
         calls = []
         for bi, c, args, dest, tgt, ln in b.calls():
             n = b.callee_name(c) or ''
@@ -220,6 +228,11 @@ def r14_4(ctx):
                 recv = F.origin.operand(b, args[0], bi, len(b.blocks[bi]['s'])) if args else None
                 which = 'payload' if recv is not None and f"F:{PB}.payload_ring" in leafs(recv) else 'metadata'
                 calls.append((which, n.rsplit('::', 1)[-1]))
+            elif depth < 2 and n in F.bodies and F.bodies[n].meta.get('impl_self') == PB and n.rsplit('::', 1)[-1] not in ('enqueue', 'enqueue_with_infallible'):
+                # a private helper of the packet buffer (an admission test extracted into its own function)
+                hb = F.bodies[n]
+                if hb.nargs >= 1 and hb.locals[1]['ty'].startswith('&') and not hb.locals[1]['ty'].startswith('&mut'):
+                    calls += profile(hb, depth + 1)
         return calls
     p1, p2 = profile(e1), profile(e2)
     must = [('payload', 'capacity'), ('metadata', 'is_full'), ('payload', 'is_empty'), ('payload', 'clear'), ('payload', 'window'),
